@@ -166,7 +166,9 @@ Step ==
              /\ nrun' = [EmptyRun EXCEPT !.id = e.run, !.scenario = e.scenario, !.items = e.items]
              /\ nstat' = [nstat EXCEPT !.events = @ + 1, !.runs = @ + 1]
         ELSE IF e.site = "abort" THEN
-             /\ Report(nrun, {"library_panicked"}, e)
+             \* a crash between a restart and the first snapshot taken from the new stream is the old stream's bookkeeping
+             \* acting on the matcher (C12; the changelog's 'crash when restarting picker with fast active stream')
+             /\ Report(nrun, {"library_panicked"} \cup (IF nrun.restartSeq > 0 /\ ~nrun.updatedSince THEN {"library_crashed_before_first_snapshot_of_new_stream"} ELSE {}), e)
              /\ nrun' = [nrun EXCEPT !.aborted = TRUE]
              /\ nstat' = [nstat EXCEPT !.events = @ + 1, !.fails = @ + 1, !.aborted = @ + 1]
         ELSE IF e.site = "notify" THEN
